@@ -125,6 +125,12 @@ theorem need_unique (P : Params) (q : Kind) (s : St) (n m : Nat) (hn : Need P q 
   have h2 := (need_iff P q s m n hm).1 hn.1
   omega
 
+/-- the ghost counter is the only thing `noteSilent` touches -/
+theorem noteSilent_eq (b r : St) : noteSilent b r = r ∨ noteSilent b r = { r with silent := r.silent + 1 } := by
+  unfold noteSilent; split
+  · exact Or.inr rfl
+  · exact Or.inl rfl
+
 /-! ### what `pop` does -/
 
 theorem pop_none_loc (P : Params) (s : St) : pop P .loc s = none ↔ s.lq = [] := by
